@@ -19,8 +19,13 @@
   Main lemmas
   * `step_inv`      — `Inv` is preserved by every successful step, whatever the target;
   * `loop_wt`       — hence the loop returns a structurally well-typed program;
-  * `step_geneKept`, `loop_geneKept` — the genotype-backed source is never left;
-  * `step_err`, `loop_err` — the exceptions the machine can raise.
+  * `step_respects`, `loop_respects`, `mapStack_geneKept` — every `StepRel` state relation is
+                      respected: the genotype-backed source is never left;
+  * `step_safe`, `loop_safe`, `mapStack_err` — the exceptions the machine can raise;
+  * `wt_congr`, `sameReg`, `mapStack_wt_stripSpec` — `wt` reads only the class declarations, the
+                      registered symbols and the productions, so `stripG (analyse spec)` can be
+                      replaced by `analyse (stripSpec spec)` (the harness predicate) whenever
+                      stripping leaves the registration unchanged.
 -/
 import GEVerif.Model.Stack
 import GEVerif.Lemmas.SynM
@@ -949,5 +954,93 @@ def errIs (r : Res Val) (e : Err) : Bool :=
   match r with
   | .ok _ _ => false
   | .err x _ => x == e
+
+/-! ### `wt` only reads the class declarations, the registered symbols and the productions -/
+
+structure SameTyping (g g' : Grammar) : Prop where
+  cls : ∀ n, g.cls n = g'.cls n
+  len : g.spec.classes.length = g'.spec.classes.length
+  nodes : g.reg.allNodes = g'.reg.allNodes
+  alts : ∀ n, g.altsOf n = g'.altsOf n
+
+theorem isProdOf_congr {g g' : Grammar} (h : SameTyping g g') :
+    ∀ (fuel n c : Nat), isProdOf g fuel n c = isProdOf g' fuel n c
+  | 0, _, _ => by simp [isProdOf]
+  | fuel + 1, n, c => by
+    have : (fun p => isProdOf g fuel p c) = (fun p => isProdOf g' fuel p c) :=
+      funext fun p => isProdOf_congr h fuel p c
+    rw [isProdOf, isProdOf, h.alts n, this]
+
+mutual
+theorem wt_congr {g g' : Grammar} (h : SameTyping g g') (deps : List (String × Val)) :
+    ∀ (ty : Ty) (v : Val), wt g deps ty v = wt g' deps ty v
+  | .int, v | .float, v | .str, v | .bool, v => by cases v <;> simp [wt]
+  | .cls n, v => by
+    cases v with
+    | node c d e args =>
+      rw [wt, wt]
+      simp only [h.cls c, h.len, h.nodes, isProdOf_congr h, wtFields_congr h [] (g'.cls c).fields args]
+    | _ => simp [wt]
+  | .list t, v => by
+    cases v with
+    | list d e vs => rw [wt, wt, wtAll_congr h t vs]
+    | _ => simp [wt]
+  | .tuple ts, v => by
+    cases v with
+    | tuple vs => rw [wt, wt, wtTuple_congr h ts vs]
+    | _ => simp [wt]
+  | .union ts, v => by rw [wt, wt, wtUnion_congr h deps ts v]
+  | .ann t mh, v => by rw [wt, wt, wt_congr h deps t v]
+termination_by ty v => (sizeOf v, sizeOf ty)
+theorem wtAll_congr {g g' : Grammar} (h : SameTyping g g') (t : Ty) :
+    ∀ (vs : List Val), wtAll g t vs = wtAll g' t vs
+  | [] => by rw [wtAll, wtAll]
+  | v :: vs => by rw [wtAll, wtAll, wt_congr h [] t v, wtAll_congr h t vs]
+termination_by vs => (sizeOf vs, sizeOf t)
+theorem wtTuple_congr {g g' : Grammar} (h : SameTyping g g') :
+    ∀ (ts : List Ty) (vs : List Val), wtTuple g ts vs = wtTuple g' ts vs
+  | [], [] => by rw [wtTuple, wtTuple]
+  | t :: ts, v :: vs => by rw [wtTuple, wtTuple, wt_congr h [] t v, wtTuple_congr h ts vs]
+  | [], _ :: _ => by simp [wtTuple]
+  | _ :: _, [] => by simp [wtTuple]
+termination_by ts vs => (sizeOf vs, sizeOf ts)
+theorem wtUnion_congr {g g' : Grammar} (h : SameTyping g g') (deps : List (String × Val)) :
+    ∀ (ts : List Ty) (v : Val), wtUnion g deps ts v = wtUnion g' deps ts v
+  | [], v => by rw [wtUnion, wtUnion]
+  | t :: ts, v => by rw [wtUnion, wtUnion, wt_congr h deps t v, wtUnion_congr h deps ts v]
+termination_by ts v => (sizeOf v, sizeOf ts)
+theorem wtFields_congr {g g' : Grammar} (h : SameTyping g g') (deps : List (String × Val)) :
+    ∀ (fs : List (String × Ty)) (vs : List Val), wtFields g deps fs vs = wtFields g' deps fs vs
+  | [], [] => by rw [wtFields, wtFields]
+  | (n, t) :: fs, v :: vs => by
+    rw [wtFields, wtFields, wt_congr h deps t v, wtFields_congr h (deps ++ [(n, v)]) fs vs]
+  | [], _ :: _ => by simp [wtFields]
+  | _ :: _, [] => by simp [wtFields]
+termination_by fs vs => (sizeOf vs, sizeOf fs)
+end
+
+/-- the registration of the stripped declarations is the registration of the declarations
+(decidable; registration never looks at a refinement) -/
+def sameReg (spec : GrammarSpec) : Bool :=
+  decide ((analyse (stripSpec spec)).reg.allNodes = (analyse spec).reg.allNodes) &&
+  decide ((analyse (stripSpec spec)).reg.alts = (analyse spec).reg.alts)
+
+theorem sameTyping_strip (spec : GrammarSpec) (h : sameReg spec = true) :
+    SameTyping (stripG (analyse spec)) (analyse (stripSpec spec)) := by
+  simp only [sameReg, Bool.and_eq_true, decide_eq_true_eq] at h
+  refine ⟨fun n => rfl, rfl, h.1.symm, fun n => ?_⟩
+  show getAlts (analyse spec).reg.alts n = getAlts (analyse (stripSpec spec)).reg.alts n
+  rw [h.2]
+
+/-- the harness predicate `prop_wt_struct` (Drive/C01.lean): well-typed for the re-analysed
+stripped declarations -/
+theorem mapStack_wt_stripSpec (spec : GrammarSpec) (hwf : altsWF (analyse spec))
+    (hsame : sameReg spec = true) (order : List Ty)
+    (hreg : orderRegistered (analyse spec) order = true) (hann : annDefaultsOK order = true)
+    (limit fuel : Nat) (dna : List Int) (v : Val) (s' : SynSt)
+    (h : mapStack (analyse spec) order limit fuel dna = .ok v s') :
+    wt (analyse (stripSpec spec)) [] (.cls spec.start) v = true := by
+  rw [← wt_congr (sameTyping_strip spec hsame)]
+  exact mapStack_wtS (analyse spec) hwf order hreg hann limit fuel dna v s' h
 
 end GEVerif.StackLemmas
